@@ -681,6 +681,78 @@ impl CodeGenerator {
             return None;
         }
 
+        // The relations alone do not make it a closure: the fast path computes
+        // "everything reachable from the seeds along edge", which is what the two rules
+        // mean only in their canonical shape
+        //   base:      rel_bf(X, Y) <- magic(X), edge(X, Y)
+        //   recursive: rel_bf(X, Z) <- magic(X), rel_bf(X, Y), edge(Y, Z)
+        // A reversed base (rel_bf(Y, X) <- magic(Y), edge(X, Y)) or a permuted head
+        // scans the same relations and must take the general fixpoint.
+        fn is_scan_of(ir: &IRNode, rel: &str) -> bool {
+            matches!(ir, IRNode::Scan { relation, .. } if relation == rel)
+        }
+        fn strip_identity_map(ir: &IRNode) -> &IRNode {
+            match ir {
+                IRNode::Map {
+                    input, projection, ..
+                } if projection.iter().copied().eq(0..projection.len())
+                    && projection.len() == input.output_schema().len() =>
+                {
+                    input
+                }
+                other => other,
+            }
+        }
+        let base_is_canonical = match strip_identity_map(&base_inputs[0]) {
+            IRNode::Join {
+                left,
+                right,
+                left_keys,
+                right_keys,
+                ..
+            } => {
+                is_scan_of(left, &magic_name)
+                    && is_scan_of(right, edge_rel)
+                    && left_keys == &[0]
+                    && right_keys == &[0]
+            }
+            _ => false,
+        };
+        let recursive_is_canonical = match &recursive_inputs[0] {
+            IRNode::Map {
+                input, projection, ..
+            } if projection.as_slice() == [0, 2] => match input.as_ref() {
+                IRNode::Join {
+                    left,
+                    right,
+                    left_keys,
+                    right_keys,
+                    ..
+                } if left_keys == &[1] && right_keys == &[0] && is_scan_of(right, edge_rel) => {
+                    match left.as_ref() {
+                        IRNode::Join {
+                            left: guard,
+                            right: rec,
+                            left_keys: guard_keys,
+                            right_keys: rec_keys,
+                            ..
+                        } => {
+                            is_scan_of(guard, &magic_name)
+                                && is_scan_of(rec, recursive_rel)
+                                && guard_keys == &[0]
+                                && rec_keys == &[0]
+                        }
+                        _ => false,
+                    }
+                }
+                _ => false,
+            },
+            _ => false,
+        };
+        if !base_is_canonical || !recursive_is_canonical {
+            return None;
+        }
+
         Some((edge_rel.to_string(), magic_tuples.clone(), 0))
     }
 
